@@ -61,7 +61,7 @@ func decodeFMTP(enc string) map[string]string {
 	ret := make(map[string]string)
 
 	for kv := range strings.SplitSeq(enc, ";") {
-		kv = strings.Trim(kv, " ")
+		kv = strings.TrimSpace(kv)
 
 		if len(kv) == 0 {
 			continue
